@@ -35,14 +35,14 @@ ASSUMPTIONS = [
     'one 10 500-fragment input (more than the default ejection interval) per mode drives the buffer-ejection branch inside the tagger',
 ]
 SMALL, MEDIUM, LARGE = 5000, 60000, 120000   # MEDIUM is still below the 100 kb small-contig threshold
-LEN = {'S': SMALL, 'M': MEDIUM, 'L': LARGE}
+LEN = {'S': SMALL, 'M': MEDIUM, 'L': LARGE, 'U': SMALL, 'V': LARGE}   # U / V: contig holding only a placed unmapped read
 
 
 def bounds(tier):
     if tier == 'quick':
-        return {'job_builder_max_contigs': 6, 'bam_max_contigs': 3, 'contig_kinds': ['S+', 'M+', 'L+', 'S0'], 'unmapped_pairs': [0, 1],
+        return {'job_builder_max_contigs': 6, 'bam_max_contigs': 3, 'contig_kinds': ['S+', 'M+', 'L+', 'S0', 'U+'], 'unmapped_pairs': [0, 1],
                 'methods': ['nla', 'chic', 'qflag'], 'orders': 'all (<=24) for nla default; identity+reverse otherwise'}
-    return {'job_builder_max_contigs': 8, 'bam_max_contigs': 4, 'contig_kinds': ['S+', 'M+', 'L+', 'S0', 'L0'], 'unmapped_pairs': [0, 1],
+    return {'job_builder_max_contigs': 8, 'bam_max_contigs': 4, 'contig_kinds': ['S+', 'M+', 'L+', 'S0', 'L0', 'U+', 'V+'], 'unmapped_pairs': [0, 1],
             'methods': ['nla', 'chic', 'qflag'], 'orders': 'all (<=120) for nla default; identity+reverse otherwise'}
 
 
@@ -116,14 +116,19 @@ def build_bam(path, layout, n_unmapped):
     contigs = [(f'c{i}{k[0]}', LEN[k[0]]) for i, k in enumerate(layout)]
     b = Builder(contigs)
     truth = {}
-    with_reads = [c for (c, l), k in zip(contigs, layout) if k.endswith('+')]
+    with_reads = [c for (c, l), k in zip(contigs, layout) if k.endswith('+') and k[0] not in 'UV']
     for ci, c in enumerate(with_reads):
         base = 1000 + 100 * ci
-        truth[b.pair(c, base, cell=1, umi='AAA')] = 'valid'
-        truth[b.pair(c, base, cell=1, umi='AAA', frag=45)] = 'valid'          # duplicate, other R2 end
+        # two copies of one molecule with different R2 ends; the copy that completes LATER in coordinate order (the longer
+        # one) was sequenced on another lane: its read group occurs only on a non-first fragment of a molecule
+        truth[b.pair(c, base, cell=1, umi='AAA', extra_tags={'La': '2'})] = 'valid'
+        truth[b.pair(c, base, cell=1, umi='AAA', frag=45)] = 'valid'
         truth[b.pair(c, base + 400, cell=2, umi='ACG', reverse=True)] = 'valid'
         truth[b.pair(c, base + 800, cell=1, umi='CCC', motif='CTTG')] = 'nomotif'
         truth[b.pair(c, base + 1200, cell=1, umi='GGA', r2_unmapped=True)] = 'halfmapped'
+    for (c, l), k in zip(contigs, layout):
+        if k[0] in 'UV':
+            truth[b.placed_unmapped_orphan(c, 700, cell=2, umi='GCA')] = 'unmapped'
     if len(with_reads) >= 2:
         truth[b.pair(with_reads[0], 3000, cell=1, umi='TTT', r2_contig=with_reads[-1], r2_pos=3500)] = 'split'
     if with_reads:
